@@ -106,7 +106,7 @@ Lemma update_pop_refresh_needs_dpop_enabled :
   exists cfg c b g, cf_dpop_enabled cfg = false /\ c_public c = false /\
     refresh_binding cfg c b g = None /\ panics (update_pop_refresh_p b g) = true.
 Proof.
-  pose (cfg := mkConfig POpenID [] [] [] [] false 0 0 false false 0 false false "" [] false false 0 false
+  pose (cfg := mkConfig POpenID [] [] [] [] false 0 0 IssueNever false 0 false false "" [] false false 0 false
                  false false false false false 0 false false false false false false false false false
                  false false false false false false false "" false []).
   pose (c := mkClient 1 false [] [] [] "" CibaNone false false false false false false false 0 false).
